@@ -9,7 +9,7 @@
 //!   against the scripted node (H = PerHost(n) on an unsharded node, S = PerShard(1) on a node with n shards
 //!   behind a shard-aware port). Steps (each prints one token):
 //!     `U<i>` use_keyspace(names[i])            → `ok` | `e:<label>`
-//!     `Q<s>` query on shard s (H: random)      → `q<server keyspace at arrival>` | `q!`
+//!     `Q<s>` query on shard s (H: random)      → `q<server keyspace at arrival>@<shard of the connection>` | `q!`
 //!     `K<s>` node closes the connection of shard s (H: the oldest live one) → `k` | `k-`
 //!     `W`    wait until the pool is full again (≤ 1.5 s)  → `w<count>`
 //!     `R<i>,<s|*>` / `M..` / `V..` / `P..` / `C..`  node rule for `USE names[i]` on shard s: reject (ERROR) /
@@ -880,8 +880,15 @@ pub fn generate(rng: &mut Rng, tier: Tier, emit: &mut dyn FnMut(String)) {
     let per = (name_cases.len() as u64 / slow.max(1)).max(1) as usize;
     let mut slow_left = slow;
     let mut resp_iter = resp_cases.into_iter();
+    let n_sess: u64 = 30 * scale;
+    let sess_every = (name_cases.len() as u64 / n_sess.max(1)).max(1) as usize;
+    let mut sess_left = n_sess;
     for (i, c) in name_cases.into_iter().enumerate() {
         emit(c);
+        if i % sess_every == sess_every / 2 && sess_left > 0 {
+            sess_generate(rng, emit);
+            sess_left -= 1;
+        }
         if i % 20 == 0
             && let Some(r) = resp_iter.next()
         {
@@ -1099,7 +1106,11 @@ async fn run_pool(w: &[&str], race: bool, progress: &Mutex<String>, peek: &Mutex
                 let r = if sharded { pool.query_on_shard(s, &text).await } else { pool.query_on_random(&text).await };
                 let seen = node.st.lock().unwrap().queries.iter().find(|q| q.tag == tag).map(|q| q.ks.clone());
                 out.push(match (r, seen) {
-                    (Ok((_, true)), Some(ks)) => format!("q{}", ks.unwrap_or_else(|| "-".to_owned())),
+                    (Ok((reported, true)), Some(ks)) => format!(
+                        "q{}@{}",
+                        ks.unwrap_or_else(|| "-".to_owned()),
+                        reported.map_or("-".to_owned(), |s| s.to_string())
+                    ),
                     _ => "q!".to_owned(),
                 });
             }
@@ -1283,6 +1294,233 @@ async fn run_resp(w: &[&str], ctx: &mut Ctx) -> Option<String> {
     })
 }
 
+
+// ---------------------------------------------------------------------------------------------
+// `sess`: a REAL Session against the mock cluster, compared token by token with the session / cluster model
+// ---------------------------------------------------------------------------------------------
+//
+// `sess <n> <name:cs,...> <step;...>`   n unsharded nodes (one pool connection each). Steps:
+//   `U<i>`         session.use_keyspace(names[i])                      → `ok` | `e:<label>`
+//   `R<i>,<n|*>`   node n (all nodes) answers `USE names[i]` with an Invalid error      `X` no more rejections
+//   `K<n>`         node n closes its pool connections → `k`            `W` wait until all pools are full → `w1` | `w0`
+//   `A`            a node joins (metadata refresh) → `a<nodes>`
+//   `Q<k>`         k requests → `q<keyspace at arrival>@<node>,...`
+//   `L`            per node the live pool connections with the keyspaces each acknowledged → `l[n0:ka>kb|n1:...]`
+// The oracle of the `pool` cases applies (arrival keyspace after an Ok call; invalid names never on the wire).
+
+fn sess_generate(rng: &mut Rng, emit: &mut dyn FnMut(String)) {
+    let n = rng.range(1, 3) as usize;
+    let nvalid = rng.range(2, 3) as usize;
+    let has_bad = rng.chance(1, 4);
+    let sc = pick_names(rng, nvalid, has_bad);
+    let mut steps: Vec<String> = vec!["W".into()];
+    let mut nodes = n;
+    for _ in 0..rng.range(3, 6) {
+        match rng.below(10) {
+            0 | 1 | 2 => {
+                steps.push(format!("U{}", rng.below(nvalid as u64)));
+                steps.push(format!("Q{}", rng.range(1, 3)));
+            }
+            // rejected by one node or by all, retried with the same name
+            3 | 4 => {
+                let i = rng.below(nvalid as u64);
+                let who = if rng.bool() { "*".to_owned() } else { rng.below(nodes as u64).to_string() };
+                steps.push(format!("R{},{}", i, who));
+                steps.push(format!("U{}", i));
+                steps.push(format!("Q{}", rng.range(1, 2)));
+                steps.push("X".into());
+                steps.push(format!("U{}", i));
+                steps.push(format!("Q{}", rng.range(1, 3)));
+            }
+            5 | 6 => {
+                steps.push(format!("K{}", rng.below(nodes as u64)));
+                steps.push("W".into());
+                steps.push(format!("Q{}", rng.range(2, 4)));
+            }
+            7 if nodes < 4 => {
+                nodes += 1;
+                steps.push("A".into());
+                steps.push(format!("Q{}", rng.range(2, 4)));
+            }
+            8 if has_bad => {
+                steps.push(format!("U{}", nvalid));
+                steps.push(format!("U{}", nvalid));
+                steps.push(format!("Q{}", rng.range(1, 2)));
+            }
+            _ => {
+                let i = rng.below(nvalid as u64);
+                steps.push(format!("U{}", i));
+                steps.push(format!("U{}", i));
+                steps.push(format!("Q{}", rng.range(1, 3)));
+            }
+        }
+    }
+    steps.push("W".into());
+    steps.push("L".into());
+    emit(format!("sess {} {} {}", n, names_field(&sc.names), steps.join(";")));
+}
+
+fn run_sess(w: &[&str], ctx: &mut Ctx) -> Option<String> {
+    use crate::e2e::common::{Shape, Strat, connect, row_specs, std_table, with_std_prepare};
+    use crate::mockcluster::{Act, KeyspaceSpec, MockCluster, NodeSpec, Req, act_error, host_id_of, rows_body, simple_strategy};
+    use crate::mocknode::ShardMode;
+    let n: usize = w.get(1)?.parse().ok()?;
+    if !(1..=4).contains(&n) {
+        return None;
+    }
+    let names = parse_names(w.get(2)?)?;
+    let steps: Vec<&str> = w.get(3)?.split(';').filter(|s| !s.is_empty()).collect();
+    let shape = Shape { nodes: n, dcs: 1, racks: 1, shards: 0, msb: 12, vnodes: 2, strat: Strat::Simple(1), seed: 7 };
+    let mut topo = shape.topology();
+    for (name, cs) in names.iter().filter(|(nm, _)| spec_valid(nm)) {
+        if let Some(k) = server_keyspace_of(&spec_statement(name, *cs))
+            && !topo.keyspaces.iter().any(|x| x.name == k)
+        {
+            topo.keyspaces.push(KeyspaceSpec { name: k, replication: simple_strategy(1), tables: vec![std_table()], initial_tablets: None });
+        }
+    }
+    // (statement text, node or all)
+    let rules: Arc<Mutex<Vec<(String, Option<usize>)>>> = Default::default();
+    let rules_h = Arc::clone(&rules);
+    let handler = with_std_prepare(move |r: &Req| match &r.parsed {
+        Parsed::Query { text, .. } if text.starts_with("USE ") => {
+            if rules_h.lock().unwrap().iter().any(|(stmt, node)| stmt == text && (node.is_none() || *node == Some(r.node))) {
+                return vec![act_error(0x2200, "Keyspace does not exist", &[])];
+            }
+            match server_keyspace_of(text) {
+                Some(k) => vec![Act::Respond(RESP_RESULT, body_set_keyspace(&k)), Act::AckKeyspace(k)],
+                None => vec![act_error(0x2000, "syntax error", &[])],
+            }
+        }
+        Parsed::Query { .. } => vec![Act::Respond(RESP_RESULT, rows_body(&row_specs(), true, None, &[]))],
+        _ => vec![crate::mockcluster::act_void()],
+    });
+    let rt = crate::mockcluster::runtime(1);
+    rt.block_on(async {
+        let cluster = MockCluster::start(topo, handler).await;
+        cluster.set_auto_use(false);
+        let session = match connect(&cluster, |b| b).await {
+            Ok(s) => s,
+            Err(_) => return Some("sess-skip".to_owned()),
+        };
+        let mut out: Vec<String> = Vec::new();
+        let mut confirmed: Option<String> = None;
+        let mut next_id = 0usize;
+        // (request id, allowed keyspace)
+        let mut expect: Vec<(usize, Option<String>)> = Vec::new();
+        for step in steps {
+            let (op, arg) = step.split_at(1);
+            match op {
+                "U" => {
+                    let (name, cs) = names.get(arg.parse::<usize>().ok()?)?;
+                    let valid = spec_valid(name);
+                    let r = session.use_keyspace(name.clone(), *cs).await;
+                    match &r {
+                        Ok(()) => {
+                            if !valid {
+                                ctx.fail(format!("sess: use_keyspace({:?}) returned Ok for an invalid name", name));
+                            }
+                            confirmed = server_keyspace_of(&spec_statement(name, *cs));
+                        }
+                        Err(_) if valid => confirmed = None,
+                        Err(_) => {}
+                    }
+                    use scylla::errors::UseKeyspaceError as E;
+                    out.push(match r {
+                        Ok(()) => "ok".to_owned(),
+                        Err(E::BadKeyspaceName(_)) => "e:BadKeyspaceName".to_owned(),
+                        Err(E::RequestError(_)) => "e:RequestError".to_owned(),
+                        Err(E::KeyspaceNameMismatch { .. }) => "e:KeyspaceNameMismatch".to_owned(),
+                        Err(E::RequestTimeout(_)) => "e:RequestTimeout".to_owned(),
+                        #[allow(unreachable_patterns)]
+                        Err(_) => "e:Other".to_owned(),
+                    });
+                }
+                "R" => {
+                    let (i, who) = arg.split_once(',')?;
+                    let (name, cs) = names.get(i.parse::<usize>().ok()?)?;
+                    let node = if who == "*" { None } else { Some(who.parse().ok()?) };
+                    rules.lock().unwrap().push((spec_statement(name, *cs), node));
+                }
+                "X" => rules.lock().unwrap().clear(),
+                "K" => {
+                    let i: usize = arg.parse().ok()?;
+                    if i >= cluster.n_nodes() {
+                        return None;
+                    }
+                    cluster.kill_connections(i, false);
+                    out.push("k".into());
+                }
+                "W" => out.push(if cluster.wait_pools_full(&session, Duration::from_secs(3)).await { "w1".into() } else { "w0".into() }),
+                "A" => {
+                    let i = cluster.n_nodes();
+                    cluster
+                        .add_node(NodeSpec { host_id: host_id_of(i), dc: Shape::dc_name(0), rack: "r1".into(), tokens: vec![1000 + i as i64, -5000 - i as i64], shards: ShardMode::None })
+                        .await;
+                    let _ = session.refresh_metadata().await;
+                    cluster.wait_pools_full(&session, Duration::from_secs(3)).await;
+                    out.push(format!("a{}", cluster.n_nodes()));
+                }
+                "Q" => {
+                    let k: usize = arg.parse().ok()?;
+                    let mut toks = Vec::new();
+                    for _ in 0..k.min(16) {
+                        let id = next_id;
+                        next_id += 1;
+                        expect.push((id, confirmed.clone()));
+                        let text = format!("SELECT pk, v FROM t WHERE pk = 0x{:08x}", id);
+                        let ok = session.query_unpaged(text.clone(), ()).await.is_ok();
+                        let frame = cluster.user_frames().into_iter().find(|f| matches!(&f.parsed, Parsed::Query { text: t, .. } if *t == text));
+                        toks.push(match (ok, frame) {
+                            (true, Some(f)) => format!("q{}@{}", f.keyspace.unwrap_or_else(|| "-".to_owned()), f.node),
+                            _ => "q!".to_owned(),
+                        });
+                    }
+                    out.push(toks.join(","));
+                }
+                "L" => {
+                    let conns = cluster.conns();
+                    let mut per_node: Vec<String> = Vec::new();
+                    for node in 0..cluster.n_nodes() {
+                        let mut rows: Vec<String> = conns
+                            .iter()
+                            .filter(|c| c.node == node && !c.control && c.ready.is_some() && c.closed.is_none())
+                            .map(|c| c.keyspace_acks.iter().map(|(_, k)| k.clone()).collect::<Vec<_>>().join(">"))
+                            .collect();
+                        rows.sort();
+                        per_node.push(format!("n{}:{}", node, rows.join(",")));
+                    }
+                    out.push(format!("l[{}]", per_node.join("|")));
+                }
+                _ => return None,
+            }
+        }
+        // oracle at the nodes
+        for f in cluster.frames() {
+            let text = match &f.parsed {
+                Parsed::Query { text, .. } | Parsed::Prepare { text } => text.clone(),
+                _ => continue,
+            };
+            for (nm, _) in names.iter().filter(|(nm, _)| !spec_valid(nm) && !nm.is_empty()) {
+                if text.contains(nm.as_str()) {
+                    ctx.fail(format!("sess: the invalid keyspace name {:?} reached node {} inside {:?}", nm, f.node, text));
+                }
+            }
+            if let Some(idhex) = text.strip_prefix("SELECT pk, v FROM t WHERE pk = 0x")
+                && let Ok(id) = usize::from_str_radix(idhex, 16)
+                && let Some((_, Some(want))) = expect.iter().find(|(i, _)| *i == id)
+                && f.keyspace.as_ref() != Some(want)
+            {
+                ctx.fail(format!(
+                    "sess: request {} was submitted after use_keyspace({}) had returned Ok, but arrived at node {} on a connection that had acknowledged {:?}",
+                    id, want, f.node, f.keyspace
+                ));
+            }
+        }
+        Some(out.join(";"))
+    })
+}
+
 pub fn run(case: &str, ctx: &mut Ctx) -> String {
     let w: Vec<&str> = case.split_whitespace().collect();
     match w.first().copied() {
@@ -1306,6 +1544,7 @@ pub fn run(case: &str, ctx: &mut Ctx) -> String {
                 Err(kind) => format!("err {}", kind),
             }
         }
+        Some("sess") if w.len() == 4 => run_sess(&w, ctx).unwrap_or_else(|| "bad-case".into()),
         Some("resp") if w.len() == 5 => {
             let rt = tokio::runtime::Builder::new_current_thread().enable_all().build().unwrap();
             rt.block_on(run_resp(&w, ctx)).unwrap_or_else(|| "bad-case".into())
